@@ -48,19 +48,23 @@ def stepSchema (body : String) : String :=
         match decodeSpec i (s.splitOn " " |>.filter (· ≠ "")), decodeAll (i + 1) rest with
         | some p, some ps => some (p :: ps)
         | _, _ => none
-    match decodeAll 2 specs with
+    match decodeRoot objDesc with
+    | none => "bad-op"
+    | some seg =>
+    -- an object root has the helper field z = 1 in front of the fields under test
+    match decodeAll (if seg.decl.kind == .oneof then 1 else 2) specs with
     | none => "bad-op"
     | some props =>
-      let written := props.map writeField
-      if written.any (fun o => !o.isOk) then (if written.any (·.isPanic) then "panic" else "err")
-      else
-        let read := written.map fun o => match o with | .ok a => readField a | .err t => .err t | .panic w => .panic w
-        if read.any (·.isPanic) then "reader-panic"
-        else if read.any (·.isErr) then "reader-error"
-        else
-          let flats := read.filterMap fun o => match o with | .ok p => some (showFlat p) | _ => none
-          let od := if objDesc == "~" then "~" else objDesc
-          String.intercalate " ;; " (("obj name=" ++ hexStr "Foo" ++ " desc=" ++ od) :: flats)
+      let env : RefPsm := fun ref =>
+        if ref == "foo.v1.Bar" then seg.barEntity.map fun e => { entityName := e, entityPart := some 1 } else none
+      match writeRoot env { seg.decl with properties := props } with
+      | .panic _ => "panic"
+      | .err _ => "err"
+      | .ok a =>
+        match readRoot a with
+        | .panic _ => "reader-panic"
+        | .err _ => "reader-error"
+        | .ok r => String.intercalate " ;; " (showRoot r :: r.properties.map showFlat)
 
 def step (line : String) : String :=
   let l := line.trimAscii.toString
